@@ -21,5 +21,6 @@ CONSTANTS
   FixD7 = TRUE
   FixD16 = TRUE
   FixD10a = TRUE
+  FixD20 = TRUE
 VIEW view
 INVARIANTS TypeOK NoBadC03Fresh
